@@ -321,6 +321,20 @@ func (r *replicator) generateEmitter(bus event.Bus) error {
 
 func (r *replicator) waitForProcessSlot(ctx context.Context) (e processItem, err error) {
 	if err := r.sem.Acquire(ctx, 1); err != nil {
+		// this process gives up before taking its item: remove one item from the
+		// queue and forget it, so that the hash can be requested again and the
+		// replicator is able to become idle
+		r.muProcess.Lock()
+		if r.queue.Len() > 0 {
+			item := r.queue.Next()
+			delete(r.tasks, item.GetHash())
+		}
+
+		if r.isIdle() {
+			r.idle()
+		}
+		r.muProcess.Unlock()
+
 		return nil, fmt.Errorf("failed to acquire process slot: %w", err)
 	}
 	r.muProcess.Lock()
